@@ -6,6 +6,7 @@ import RedoModel.Commit
 import RedoModel.DepsWire
 import RedoModel.TokensWire
 import RedoModel.SqlTxnWire
+import RedoModel.LocksWire
 open RedoModel RedoModel.Wire
 
 def decList (s : String) : Option (List (List Char)) :=
@@ -108,6 +109,7 @@ def respond (line : String) : String :=
   | ["deps-run", d, n, rules, ops] => DepsWire.respond d n rules ops
   | ["tokens-replay", k, evs] => TokensWire.respond k evs
   | ["sqltxn-replay", evs] => SqlTxnWire.respond evs
+  | ["locks-replay", evs] => LocksWire.respond evs
   | _ => "bad-op"
 
 partial def loop (h : IO.FS.Stream) (out : IO.FS.Stream) : IO Unit := do
